@@ -122,8 +122,12 @@ def rand_seq(rng, fam):
                 cur_ip = net + n
             ops.append("goff")
         else:
-            ops.append(rng.choice(["show", "goff"]))
+            ops.append(rng.choice(["show", "goff", "hash"]))
+        if rng.random() < 0.35:
+            ops.append("hash")       # before the next mutation: a memoised hash would go stale
     ops.append("show")
+    if rng.random() < 0.7:
+        ops.append("hash")
     return mk_seq(fam, ip, ln, ops)
 
 
@@ -241,6 +245,12 @@ def impl(case):
                 out.append(show(fam, x))
             elif name == "goff":
                 out.append(str(x.network_offset))
+            elif name == "hash":
+                # hash now (an implementation may memoise it) and compare with a freshly built equal object
+                h = hash(x)
+                y = make_obj(fam, x.as_decimal, x.prefixlen)
+                ok = (x == y) and (h == hash(y)) and (len({x, y}) == 1) and (y in {x: 1})
+                out.append("h1" if ok else f"h0:eq={x == y},hash_eq={h == hash(y)},set={len({x, y})}")
             elif name == "add":
                 x = x + int(arg)
                 out.append("ok")
@@ -357,6 +367,9 @@ def oracle_seq(case, ans):
             elif g == "ok":
                 return [f"{here}.network_offset = {n} did not raise although it exceeds the boundaries of the subnet"
                         + (" (negative offset)" if n < 0 else "")]
+        elif name == "hash":
+            if g != "h1":
+                return [f"{here}: after the operations so far the object and a freshly built equal object disagree on ==/hash/set membership ({g})"]
         elif name == "goff":
             if not g.startswith("err") and int(g) != ip - net:
                 return [f"{here}.network_offset is {g}, expected {ip - net}"]
